@@ -664,4 +664,339 @@ theorem tsiD_law (hin : NoDot input ∧ input ∈ Candle.attrNames) : TComp.Law 
 
 end dpiece
 
+/-! ### the four EMA pieces and the chain -/
+
+section chain
+variable (name : String) (round : Nat) (p smooth : Int) (input : String)
+  (hp : 1 ≤ p) (hs : 1 ≤ smooth) (hn : TsiNames name)
+
+/-- the tolerant contracts of the four EMAs -/
+def tsiTF : TContract (tsiF (F := F) name p smooth) :=
+  emaTG _ p (name ++ "_data.price") (fl 2) rfl hp hn.kF [name ++ "_data"]
+    (sees_dotted _ _ _ _ hn.price (by simp)) (TSI.indep_dotted _ _ _ _ hn.price hn.DF.symm)
+def tsiTS : TContract (tsiS (F := F) name smooth) :=
+  emaTG _ smooth (name ++ "_first") (fl 2) rfl hs hn.kS [name ++ "_first"]
+    (sees_key _ _ hn.kF (by simp)) (indep_key _ _ hn.kF hn.FS.symm)
+def tsiTA : TContract (tsiAF (F := F) name p smooth) :=
+  emaTG _ p (name ++ "_data.abs_price") (fl 2) rfl hp hn.kA [name ++ "_data"]
+    (sees_dotted _ _ _ _ hn.absPrice (by simp)) (TSI.indep_dotted _ _ _ _ hn.absPrice hn.DA.symm)
+def tsiTB : TContract (tsiAS (F := F) name smooth) :=
+  emaTG _ smooth (name ++ "_abs_first") (fl 2) rfl hs hn.kB [name ++ "_abs_first"]
+    (sees_key _ _ hn.kA (by simp)) (indep_key _ _ hn.kA hn.AB.symm)
+
+/-- the pieces -/
+def tsiCF : TComp F := leafComp (tsiF name p smooth) (tsiTF name p smooth hp hn)
+def tsiCS : TComp F := leafComp (tsiS name smooth) (tsiTS name smooth hs hn)
+def tsiCA : TComp F := leafComp (tsiAF name p smooth) (tsiTA name p smooth hp hn)
+def tsiCB : TComp F := leafComp (tsiAS name smooth) (tsiTB name smooth hs hn)
+
+/-- everything `Managed.set_reading` writes at one index, in the engine's order -/
+def tsiX : TComp F :=
+  TComp.seq (TComp.seq (TComp.seq (TComp.seq (tsiD name input) (tsiCF name p smooth hp hn))
+    (tsiCS name smooth hs hn)) (tsiCA name p smooth hp hn)) (tsiCB name smooth hs hn)
+
+theorem tsiX_rkeys : (tsiX (F := F) name p smooth input hp hs hn).rkeys
+    = [name ++ "_first", name ++ "_data", name ++ "_second", name ++ "_first",
+       name ++ "_abs_first", name ++ "_data", name ++ "_abs_second", name ++ "_abs_first"] := rfl
+
+theorem tsiX_wkeys : (tsiX (F := F) name p smooth input hp hs hn).wkeys
+    = [name ++ "_data", name ++ "_first", name ++ "_second", name ++ "_abs_first", name ++ "_abs_second"] := rfl
+
+set_option linter.unusedSimpArgs false in
+theorem tsiX_law (hin : NoDot input ∧ input ∈ Candle.attrNames) :
+    TComp.Law (tsiX (F := F) name p smooth input hp hs hn) := by
+  unfold tsiX
+  refine TComp.seq_law (TComp.seq_law (TComp.seq_law (TComp.seq_law (tsiD_law name input hin)
+    (leafComp_law _ _) ?_) (leafComp_law _ _) ?_) (leafComp_law _ _) ?_) (leafComp_law _ _) ?_
+  · constructor <;> intro k hk <;>
+      simp [tsiD, tsiD0, tsiCF, leafComp, tsiF_name] at hk ⊢
+    subst hk
+    exact hn.DF
+  · constructor <;> intro k hk <;>
+      simp [TComp.seq, tsiD, tsiD0, tsiCF, tsiCS, leafComp, tsiTF, emaTG, tsiF_name, tsiS_name] at hk ⊢ <;>
+      rintro rfl <;>
+      simp [hn.nD, hn.nF, hn.nS, hn.nA, hn.nB, hn.DF, hn.DS, hn.DA, hn.DB, hn.FS, hn.FA, hn.FB, hn.SA, hn.SB, hn.AB,
+        hn.nD.symm, hn.nF.symm, hn.nS.symm, hn.nA.symm, hn.nB.symm, hn.DF.symm, hn.DS.symm, hn.DA.symm, hn.DB.symm,
+        hn.FS.symm, hn.FA.symm, hn.FB.symm, hn.SA.symm, hn.SB.symm, hn.AB.symm] at hk
+  · constructor <;> intro k hk <;>
+      simp [TComp.seq, tsiD, tsiD0, tsiCF, tsiCS, tsiCA, leafComp, tsiTF, tsiTS, emaTG, tsiF_name, tsiS_name,
+        tsiAF_name] at hk ⊢ <;>
+      rintro rfl <;>
+      simp [hn.nD, hn.nF, hn.nS, hn.nA, hn.nB, hn.DF, hn.DS, hn.DA, hn.DB, hn.FS, hn.FA, hn.FB, hn.SA, hn.SB, hn.AB,
+        hn.nD.symm, hn.nF.symm, hn.nS.symm, hn.nA.symm, hn.nB.symm, hn.DF.symm, hn.DS.symm, hn.DA.symm, hn.DB.symm,
+        hn.FS.symm, hn.FA.symm, hn.FB.symm, hn.SA.symm, hn.SB.symm, hn.AB.symm] at hk
+  · constructor <;> intro k hk <;>
+      simp [TComp.seq, tsiD, tsiD0, tsiCF, tsiCS, tsiCA, tsiCB, leafComp, tsiTF, tsiTS, tsiTA, emaTG, tsiF_name,
+        tsiS_name, tsiAF_name, tsiAS_name] at hk ⊢ <;>
+      rintro rfl <;>
+      simp [hn.nD, hn.nF, hn.nS, hn.nA, hn.nB, hn.DF, hn.DS, hn.DA, hn.DB, hn.FS, hn.FA, hn.FB, hn.SA, hn.SB, hn.AB,
+        hn.nD.symm, hn.nF.symm, hn.nS.symm, hn.nA.symm, hn.nB.symm, hn.DF.symm, hn.DS.symm, hn.DA.symm, hn.DB.symm,
+        hn.FS.symm, hn.FA.symm, hn.FB.symm, hn.SA.symm, hn.SB.symm, hn.AB.symm] at hk
+
+end chain
+
+/-! ### the node's own step -/
+
+/-- the node's reading from what the chain stored on the current candle; reads two keys -/
+def tsiFin (name : String) (c : Candle F) : PyM (Val F) :=
+  if !(readingByCandle c (name ++ "_abs_second")).isNone then do
+    let a ← (readingByCandle c (name ++ "_abs_second")).asNum
+    if a.eq (.int 0) then pure (.num (fl 0)) else do
+      let s ← (readingByCandle c (name ++ "_second")).asNum
+      let a' ← (readingByCandle c (name ++ "_abs_second")).asNum
+      let q ← s.truediv a'
+      pure (.num ((Num.int 100).mul q))
+  else pure .none
+
+/-- the guard of the node's step: `reading_period(2, input)` at the current candle -/
+def tsiG (name input : String) (H : List (Candle F)) (c : Candle F) : Bool :=
+  ({ cs := H ++ [c], i := H.length, name := name } : Ctx F).readingPeriod 2 input
+
+theorem tsiFin_sim (name : String) (hn : TsiNames name) (a b : Candle F)
+    (h : SimK [name ++ "_second", name ++ "_abs_second"] a b) : tsiFin name a = tsiFin name b := by
+  unfold tsiFin
+  rw [sees_key (F := F) _ (name ++ "_abs_second") hn.kB (by simp) a b h,
+    sees_key (F := F) _ (name ++ "_second") hn.kS (by simp) a b h]
+
+theorem tsiG_sim (name input : String) (hin : NoDot input ∧ input ∈ Candle.attrNames)
+    (H H' : List (Candle F)) (c c' : Candle F) (hs : SimL ([] : List String) H H')
+    (hc : SimK ([] : List String) c c') : tsiG name input H c = tsiG name input H' c' := by
+  unfold tsiG
+  exact Ctx.readingPeriod_congr (sameCol_simL (F := F) [] input (sees_attr _ _ hin.1 hin.2) hs hc name) 2 none
+
+section own
+variable (name : String) (round : Nat) (p smooth : Int) (input : String)
+  (hp : 1 ≤ p) (hs : 1 ≤ smooth) (hn : TsiNames name)
+
+/-- **the TSI node's own step as a tolerant component**: guard; the dict and the four EMA readings
+(`Managed.set_reading`); the own reading.  The pass is the node's loop as the engine runs it. -/
+def tsiCompP : TComp F :=
+  guardOwn (tsiX name p smooth input hp hs hn) name round (tsiG name input) (tsiFin name)
+    [name ++ "_second", name ++ "_abs_second"]
+    (Gen.nodeCalc (specWith (tsiP name round p smooth input) (tsiC name p smooth input)))
+
+theorem tsiDVal_eq (H : List (Candle F)) (c : Candle F) :
+    tsiDVal name input H c = (do
+      let a ← (readingByCandle c input).asNum
+      let b ← (Ctx.lastReading input H).asNum
+      pure (sdict [("price", sc (a.sub b)), ("abs_price", sc (a.sub b).abs)])) := by
+  unfold tsiDVal
+  rw [Ctx.num_cur H c [], Ctx.prevNum_append_cons H c []]
+
+/-- what the chain stores -/
+def tsiXApp (d f s a b : Val F) (c : Candle F) : Candle F :=
+  decOf (tsiAS name smooth) b (decOf (tsiAF name p smooth) a (decOf (tsiS name smooth) s
+    (decOf (tsiF name p smooth) f (setKey true (name ++ "_data") d c))))
+
+theorem tsiX_app (d f s a b : Val F) (c : Candle F) :
+    (tsiX name p smooth input hp hs hn).app ((((d, f), s), a), b) c = tsiXApp name p smooth d f s a b c := rfl
+
+/-- the value of the chain, flattened -/
+theorem tsiX_val (H : List (Candle F)) (c : Candle F) :
+    (tsiX name p smooth input hp hs hn).val H c = (do
+      let d ← tsiDVal name input H c
+      let f ← valOf (tsiF name p smooth) H (setKey true (name ++ "_data") d c)
+      let s ← valOf (tsiS name smooth) H (decOf (tsiF name p smooth) f (setKey true (name ++ "_data") d c))
+      let a ← valOf (tsiAF name p smooth) H (decOf (tsiS name smooth) s
+        (decOf (tsiF name p smooth) f (setKey true (name ++ "_data") d c)))
+      let b ← valOf (tsiAS name smooth) H (decOf (tsiAF name p smooth) a (decOf (tsiS name smooth) s
+        (decOf (tsiF name p smooth) f (setKey true (name ++ "_data") d c))))
+      pure ((((d, f), s), a), b)) := by
+  unfold tsiX
+  simp only [TComp.seq, tsiD, tsiD0, tsiCF, tsiCS, tsiCA, tsiCB, leafComp]
+  rcases tsiDVal name input H c with e | d
+  · rfl
+  simp only [bind, Except.bind, pure, Except.pure]
+  rcases valOf (tsiF name p smooth) H (setKey true (name ++ "_data") d c) with e | f
+  · rfl
+  simp only
+  rcases valOf (tsiS name smooth) H (decOf (tsiF name p smooth) f (setKey true (name ++ "_data") d c)) with e | s
+  · rfl
+  simp only
+  rcases valOf (tsiAF name p smooth) H (decOf (tsiS name smooth) s
+    (decOf (tsiF name p smooth) f (setKey true (name ++ "_data") d c))) with e | a
+  · rfl
+  simp only
+
+/-- **one step of the node as the engine runs it** (set_reading two levels deep, read back) is
+"compute from `H` and `c` only, store on `c`" -/
+theorem stepWith_tsi (H : List (Candle F)) (c : Candle F) (rest : List (Candle F)) :
+    stepWith (tsiP name round p smooth input) (tsiC name p smooth input) (H ++ c :: rest) H.length = (do
+      let z ← (tsiCompP name round p smooth input hp hs hn).val H c
+      pure (H ++ (tsiCompP name round p smooth input hp hs hn).app z c :: rest)) := by
+  have hGeq : ({ cs := H ++ c :: rest, i := H.length, name := name } : Ctx F).readingPeriod 2 input
+      = tsiG name input H c := by
+    unfold tsiG
+    rw [← trunc_append_cons H c rest]
+    exact (Ctx.readingPeriod_trunc _ 2 input (by simp) (by simp) (by decide)).symm
+  unfold stepWith tsiC Calc.tsi
+  show _ = (do
+    let z ← (if tsiG name input H c then (do
+          let x ← (tsiX name p smooth input hp hs hn).val H c
+          let w ← tsiFin name ((tsiX name p smooth input hp hs hn).app x c)
+          pure (some x, w))
+        else pure (none, .none))
+    pure (H ++ setKey false name (z.2.roundBy round) (gInner (tsiX name p smooth input hp hs hn) z.1 c) :: rest))
+  simp only [hGeq, tsiP_isSub, tsiP_name, tsiP_round]
+  by_cases hg : tsiG name input H c = true
+  · simp only [hg, Bool.not_true, Bool.false_eq_true, if_false, if_true]
+    simp only [Ctx.num_cur, Ctx.prevNum_append_cons, tsiOps, tsiSet, setReading_eq, updateAt_append_cons]
+    rw [tsiX_val, tsiDVal_eq]
+    rcases (readingByCandle c input).asNum with e | a
+    · rfl
+    rcases (Ctx.lastReading input H).asNum with e | b
+    · rfl
+    simp only [bind, Except.bind, pure, Except.pure]
+    generalize sdict [("price", sc (a.sub b)), ("abs_price", sc (a.sub b).abs)] = d
+    rw [stepLeaf_T (tsiF name p smooth) (tsiTF name p smooth hp hn) H _ rest trivial]
+    rcases valOf (tsiF name p smooth) H (setKey true (name ++ "_data") d c) with e | f
+    · rfl
+    simp only [bind, Except.bind, pure, Except.pure]
+    rw [stepLeaf_T (tsiS name smooth) (tsiTS name smooth hs hn) H _ rest trivial]
+    rcases valOf (tsiS name smooth) H (decOf (tsiF name p smooth) f (setKey true (name ++ "_data") d c)) with e | s
+    · rfl
+    simp only [bind, Except.bind, pure, Except.pure]
+    rw [stepLeaf_T (tsiAF name p smooth) (tsiTA name p smooth hp hn) H _ rest trivial]
+    rcases valOf (tsiAF name p smooth) H (decOf (tsiS name smooth) s
+      (decOf (tsiF name p smooth) f (setKey true (name ++ "_data") d c))) with e | af
+    · rfl
+    simp only [bind, Except.bind, pure, Except.pure]
+    rw [stepLeaf_T (tsiAS name smooth) (tsiTB name smooth hs hn) H _ rest trivial]
+    rcases valOf (tsiAS name smooth) H (decOf (tsiAF name p smooth) af (decOf (tsiS name smooth) s
+      (decOf (tsiF name p smooth) f (setKey true (name ++ "_data") d c)))) with e | as
+    · rfl
+    simp only [bind, Except.bind, pure, Except.pure, tsiX_app, Ctx.reading_cur, Ctx.num_cur]
+    unfold tsiFin
+    unfold tsiXApp
+    have hc5 : gInner (tsiX name p smooth input hp hs hn) (some ((((d, f), s), af), as)) c
+        = decOf (tsiAS name smooth) as (decOf (tsiAF name p smooth) af (decOf (tsiS name smooth) s
+            (decOf (tsiF name p smooth) f (setKey true (name ++ "_data") d c)))) := rfl
+    generalize decOf (tsiAS name smooth) as (decOf (tsiAF name p smooth) af (decOf (tsiS name smooth) s
+      (decOf (tsiF name p smooth) f (setKey true (name ++ "_data") d c)))) = c5 at hc5 ⊢
+    generalize readingByCandle c5 (name ++ "_abs_second") = rb
+    generalize readingByCandle c5 (name ++ "_second") = rs
+    by_cases h1 : rb.isNone = true
+    · simp only [h1, Bool.not_true, Bool.false_eq_true, if_false, pure, Except.pure, updateAt_append_cons, hc5]
+    · simp only [h1, Bool.not_false, if_true, bind, Except.bind, pure, Except.pure]
+      rcases rb.asNum with e | v
+      · rfl
+      simp only
+      by_cases h2 : v.eq (Num.int 0) = true
+      · simp only [h2, if_true, updateAt_append_cons, hc5]
+      · simp only [h2, Bool.false_eq_true, if_false]
+        rcases rs.asNum with e | v'
+        · rfl
+        simp only
+        rcases v'.truediv v with e | q
+        · rfl
+        simp only [updateAt_append_cons, hc5]
+  · simp only [hg, Bool.not_false, if_true, Bool.false_eq_true, if_false, bind, Except.bind, pure, Except.pure,
+      setReading_eq, updateAt_append_cons]
+    rfl
+
+/-- the loop of the node over raw candles is the row-major fold of the component -/
+theorem nodeLoop_runTsi (R : List (Candle F)) :
+    ∀ (H : List (Candle F)), (∀ r ∈ R, (tsiCompP name round p smooth input hp hs hn).Raw r) →
+      Gen.nodeLoop (specWith (tsiP name round p smooth input) (tsiC name p smooth input)) (H ++ R) H.length R.length
+        = (tsiCompP name round p smooth input hp hs hn).rowFrom H R := by
+  induction R with
+  | nil => intro H _; simp [Gen.nodeLoop, TComp.rowFrom_nil]
+  | cons r R' ih =>
+    intro H hR
+    have hr := hR r (by simp)
+    have hrs : (tsiCompP name round p smooth input hp hs hn).rowStep H r = (do
+        let z ← (tsiCompP name round p smooth input hp hs hn).val H r
+        pure (H ++ [(tsiCompP name round p smooth input hp hs hn).app z r])) := rfl
+    rw [List.length_cons, Gen.nodeLoop, pyIndex_append_cons, TComp.rowFrom_cons, hrs]
+    have hpres : present (specWith (tsiP (F := F) name round p smooth input) (tsiC name p smooth input)).name r
+        = false :=
+      present_of_noKey _ r (by
+        show hasKey (tsiP (F := F) name round p smooth input).name r = false
+        rw [tsiP_name]; exact hr.1)
+    simp only [bind, Except.bind, hpres, Bool.false_eq_true, if_false]
+    have hstep : (specWith (tsiP name round p smooth input) (tsiC name p smooth input)).step (H ++ r :: R') H.length
+        = (do
+          let z ← (tsiCompP name round p smooth input hp hs hn).val H r
+          pure (H ++ (tsiCompP name round p smooth input hp hs hn).app z r :: R')) :=
+      stepWith_tsi name round p smooth input hp hs hn H r R'
+    rw [hstep]
+    cases hv : (tsiCompP name round p smooth input hp hs hn).val H r with
+    | error e => rfl
+    | ok z =>
+      simp only [bind, Except.bind, pure, Except.pure]
+      have := ih (H ++ [(tsiCompP name round p smooth input hp hs hn).app z r]) (fun x hx => hR x (by simp [hx]))
+      simpa using this
+
+/-- **the laws of the TSI node's own step** -/
+theorem tsiCompP_law (hin : NoDot input ∧ input ∈ Candle.attrNames) :
+    TComp.Law (tsiCompP (F := F) name round p smooth input hp hs hn) := by
+  unfold tsiCompP
+  refine guardOwn_law _ name round _ _ _ _ (tsiX_law name p smooth input hp hs hn hin)
+    (tsiG_sim name input hin) (tsiFin_sim name hn) ?_ ?_ ?_ ?_
+  · rw [tsiX_wkeys]; simp [hn.nD, hn.nF, hn.nS, hn.nA, hn.nB]
+  · rw [tsiX_rkeys]; simp [hn.nD, hn.nF, hn.nS, hn.nA, hn.nB]
+  · simp [hn.nS, hn.nB]
+  · intro H R out hsH hR
+    have key : Gen.nodeCalc (specWith (tsiP name round p smooth input) (tsiC name p smooth input)) (H ++ R)
+        = (tsiCompP name round p smooth input hp hs hn).rowFrom H R := by
+      unfold Gen.nodeCalc
+      have hnm : (specWith (tsiP (F := F) name round p smooth input) (tsiC name p smooth input)).name = name :=
+        tsiP_name (F := F) name round p smooth input
+      rw [hnm, findCalcIndex_split name H R hsH (fun r hr => (hR r hr).1)]
+      have : (H ++ R).length - H.length = R.length := by simp
+      rw [this]
+      exact nodeLoop_runTsi name round p smooth input hp hs hn R H hR
+    rw [key]
+    exact Iff.rfl
+
+end own
+
+/-! ### the tree -/
+
+section tree
+variable (name : String) (round : Nat) (p smooth : Int) (input : String)
+  (hp : 1 ≤ p) (hs : 1 ≤ smooth) (hn : TsiNames name) (hin : NoDot input ∧ input ∈ Candle.attrNames)
+
+theorem allNames_tsi : (tsiP (F := F) name round p smooth input).allNames
+    = [name, name ++ "_data", name ++ "_first", name ++ "_second", name ++ "_abs_first",
+       name ++ "_abs_second"] := by
+  simp [tsiP, mkTop, children, Ind.allNames_eq, Ind.allNamesL, Ind.allNamesM, leaf, Ind.name, Ind.subs,
+    Ind.managed]
+
+/-- **True Strength Index as a tree with a row-major spec.** -/
+def tsiTree : TreeSpec (mkTop (.tsi p smooth input : Kind F) name round) :=
+  TreeSpec.ofComp (ind := tsiP (F := F) name round p smooth input)
+    (tsiCompP name round p smooth input hp hs hn)
+    (tsiCompP_law name round p smooth input hp hs hn hin)
+    (fun c hc => (tsiCompP_law name round p smooth input hp hs hn hin).raw_of c
+      (fun k _ => hasKey_plain k c hc))
+    (by
+      intro k hk
+      rw [allNames_tsi]
+      have hw : (tsiCompP (F := F) name round p smooth input hp hs hn).wkeys
+          = [name ++ "_data", name ++ "_first", name ++ "_second", name ++ "_abs_first",
+             name ++ "_abs_second"] ++ [name] := rfl
+      rw [hw] at hk
+      simp at hk ⊢
+      rcases hk with h | h | h | h | h | h <;> simp [h])
+    (fun cs => engineCalc_tsi name round p smooth input cs)
+
+end tree
+
+/-- the hypotheses are met by the default name of `TSI(period=3, smooth_period=1)` -/
+example : TsiNames "TSI_3_1" :=
+  ⟨by decide, by decide, by decide, by decide, by decide, by decide, by decide, by decide, by decide,
+    by decide, by decide, by decide, by decide, by decide, by decide, by decide, by decide, by decide,
+    by decide, by decide, by decide⟩
+
+example : Nonempty (TreeSpec (mkTop (.tsi 3 1 "close" : Kind F) "TSI_3_1" 4)) :=
+  ⟨tsiTree "TSI_3_1" 4 3 1 "close" (by decide) (by decide)
+    ⟨by decide, by decide, by decide, by decide, by decide, by decide, by decide, by decide, by decide,
+      by decide, by decide, by decide, by decide, by decide, by decide, by decide, by decide, by decide,
+      by decide, by decide, by decide⟩ (by decide)⟩
+
 end Hex
+
+#print axioms Hex.tsiTree
+#print axioms Hex.engineCalc_tsi
+#print axioms Hex.setManagedReading_tsi
